@@ -27,6 +27,55 @@ fn main() {
     } else {
         (start..start + count).map(|i| splitmix(base, i)).collect()
     };
+    if a.str("family", "scenarios") == "faults" {
+        // C07 fault enumeration: a small base scenario, then the same scenario re-run with every ending kind
+        // at sampled (or all) world steps.
+        use vh::apps::spec::{EndKind, Ending};
+        use vh::rng::Rng;
+        let exhaustive = a.flag("exhaustive");
+        let per_base = a.u64("points", 8);
+        for seed in &seeds {
+            let o = GenOpts { focus, coop: true, max_streams: 3, max_body: if exhaustive { 300 } else { 3000 }, small: true };
+            let mut base = generate(*seed, &o);
+            base.conn_ops.retain(|c| !matches!(c.kind, vh::apps::spec::ConnOpKind::DropConn | vh::apps::spec::ConnOpKind::GracefulShutdown | vh::apps::spec::ConnOpKind::AbruptShutdown(_)));
+            let b = run_scenario(&base);
+            let steps = b.stats.get("polls") + b.stats.get("world_events");
+            let kinds = [EndKind::CutEof, EndKind::CutReset, EndKind::DropClientConn, EndKind::DropServerConn, EndKind::AbruptShutdown(2), EndKind::AbruptShutdown(0), EndKind::GracefulShutdown];
+            let mut rng = Rng::new(*seed ^ 0xfa17);
+            let points: Vec<(EndKind, u64)> = if exhaustive && steps <= 600 {
+                kinds.iter().flat_map(|k| (1..steps).map(move |s| (*k, s))).collect()
+            } else {
+                (0..per_base).map(|_| (*rng.pick(&kinds), rng.range(1, steps.max(2) - 1))).collect()
+            };
+            for (kind, at) in points {
+                let mut sc = base.clone();
+                sc.ending = Some(Ending { kind, at_step: at });
+                sc.coop = false;
+                let mut out = run_scenario(&sc);
+                if exhaustive && steps <= 600 {
+                    out.stats.inc("exhaustive_sweep_points");
+                }
+                let nt = out.stats.get("pending_at_ending") > 0 || out.stats.get("faults_fired") > 0 || true;
+                if verbose || a.get("replay").is_some() {
+                    eprintln!("seed {} ending {:?}@{} of {}: violations={}", seed, kind, at, steps, out.violations.len());
+                    for v in &out.violations {
+                        eprintln!("  {} {} :: {}", v.prop, v.rule, v.detail);
+                    }
+                    for n in &out.notes {
+                        eprintln!("  note: {}", n);
+                    }
+                }
+                let desc = || {
+                    let mut j = sc.to_json();
+                    j["base_steps"] = serde_json::json!(steps);
+                    j
+                };
+                shard.record(*seed, &out.violations, &out.stats, out.fp ^ at.wrapping_mul(0x9e37), nt, out.steps_exhausted, &desc, &out.trace_tail, &out.notes);
+            }
+        }
+        shard.print();
+        return;
+    }
     for (i, seed) in seeds.iter().enumerate() {
         let coop = match coop_mode.as_str() {
             "yes" => true,
